@@ -6,11 +6,15 @@ never depend on the parser under test. Every random choice derives from one
 `random.Random(seed)`; a case replays alone from (seed, index).
 """
 import random
+
+import tricky
 from fractions import Fraction
 
 ACCOUNTS = ["a", "b", "c", "d"]
 DESTS = ["x", "y", "z", "a", "b"]
 ASSETS = ["USD", "EUR/2"]
+# strings that output layers (printf, JSON/HTML escaping) treat specially; none contains a quote, a backslash or a newline
+META_STRINGS = [x for x in tricky.STRINGS if '"' not in x and "\\" not in x and "\n" not in x]
 BIG = 2 ** 64
 
 
@@ -294,9 +298,26 @@ def gen_dest(ctx, asset, depth, amount):
 
 # ---------------------------------------------------------------- statements
 
+BAD_CALLS = [  # (text, called name): built-ins used where they do not belong, unknown names
+    ('balance(@a, USD)', "balance"), ('meta(@b, "k")', "meta"), ('overdraft(@a, USD)', "overdraft"),
+    ('foo()', "foo"), ('set_tx_metadata("k", 1)', "set_tx_metadata"), ('send_all(@a)', "send_all"),
+    ('balance(@a)', "balance"), ('metadata(@a, "k", 3)', "metadata"),
+]
+
+
+ASSETS3 = ["USD", "EUR/2", "COIN"]
+
+
 def gen_statement(ctx):
     r = ctx.rng
+    if ctx.chance("bad_call", 0.0):
+        t, name = r.choice(BAD_CALLS)
+        ctx.features.add("call-of-non-statement-function")
+        return t, ('error', "UnboundFunctionErr", [name])
     asset = ASSETS[0] if r.random() < 0.85 else ASSETS[1]
+    if ctx.p.get("multi_asset"):
+        # several assets of the same accounts in one script (per-account lists of assets in the balance queries)
+        asset = r.choice(ASSETS3)
     x = r.random()
     if x < ctx.p.get("send", 0.55):
         n = pick_amount(ctx)
@@ -347,7 +368,9 @@ def gen_meta_value(ctx):
     r = ctx.rng
     k = r.choice(["string", "number", "monetary", "account", "asset", "portion"])
     if k == "string":
-        s = r.choice(["hello", "", "a b", "é", "x:y"])
+        s = r.choice(["hello", "", "a b", "é", "x:y"] + META_STRINGS)
+        if ctx.chance("str_var", 0.3):
+            return ctx.declare("string", ('string', s), s), ('string', s)
         return '"%s"' % s, ('string', s)
     if k == "number":
         n = r.choice([0, 1, 42, -7])
@@ -382,7 +405,7 @@ def gen_case(seed, index, profile=None):
 
     # balances: small pool, steered towards interesting relations
     for a in ACCOUNTS + ["x"]:
-        for c in ASSETS:
+        for c in (ASSETS3 if p.get("multi_asset") else ASSETS):
             x = rng.random()
             if x < p.get("neg_balance", 0.12):
                 v = -rng.randrange(1, 30)
@@ -427,6 +450,8 @@ def gen_case(seed, index, profile=None):
         for _ in range(rng.randrange(1, 3)):
             a = rng.choice(ACCOUNTS)
             c = ASSETS[0] if rng.random() < 0.6 else rng.choice(ASSETS[1:])
+            if p.get("multi_asset"):
+                c = rng.choice(ASSETS3)
             if getattr(ctx, "origin_account", None) and rng.random() < 0.5:
                 a = ctx.origin_account          # several origins on one account (other asset, other function)
             ctx.origin_account = a
@@ -464,6 +489,11 @@ def gen_case(seed, index, profile=None):
                     ctx.features.add("origin-meta-missing")
                     ctx.meta_missing = (a, missing)
 
+    if ctx.chance("bad_origin", 0.0):
+        o = rng.choice(['set_tx_meta("k", 1)', 'set_account_meta(@a, "k", 1)', 'foo(@a)', 'balances(@a, USD)', 'saves(@a)'])
+        ctx.decls.append((rng.choice(["number", "monetary", "string"]), ctx.fresh("bad"), o))
+        ctx.features.add("origin-of-non-origin-function")
+
     # use origin variables: append a send that uses the first origin monetary
     extra = []
     for (t, name, origin) in ctx.decls:
@@ -485,6 +515,9 @@ def gen_case(seed, index, profile=None):
     # expected failure at variable initialisation (balance() of a negative balance, missing metadata)
     var_error = None
     for (t, name, origin) in ctx.decls:
+        if origin and origin.split("(")[0] not in ("meta", "balance", "overdraft"):
+            var_error = ("UnboundFunctionErr", [origin.split("(")[0]])
+            break
         if origin and origin.startswith("meta(") and "absent_key" in origin:
             a = origin[len("meta(@"):].split(",")[0]
             var_error = ("MetadataNotFound", [a, "absent_key"])
